@@ -841,7 +841,8 @@ Local Open Scope string_scope.
     by the metamorphic runs of tools/props/C07.py):
     - pressAbsErrTol = 1e-8: provisional absolute pressure tolerance for the two bracket
       pressures of EOM.solveWall, replaced by a relative one before the root search;
-    - |Tnucl - Tplus| < 1e-10: decides "detonation" (Tplus is then Tnucl exactly);
+    - (|Tnucl - Tplus| < 1e-10 and xtol=1e-10 in findPlasmaProfilePoint were on this list until
+      /repo 12044cf made them relative to Tnucl);
     - xtol=1e-10 / xtol=self.atol (1e-10): absolute x-tolerance of temperature roots, always
       combined with a relative tolerance that dominates for T >> 1e-10;
     - (p+ - p-) * 1e50: sentinel when e+ = e- exactly (see
@@ -857,8 +858,6 @@ Local Open Scope string_scope.
     an expression whose dimension the naming table cannot tell (fail closed). *)
 Definition reviewed_sites : list site := [
   mk_site "equationOfMotion.py" "EOM.solveWall" "assign" "pressAbsErrTol = 1e-08" (Some 4%Z) 1;
-  mk_site "equationOfMotion.py" "EOM.findPlasmaProfilePoint" "cmp" "1e-10" (Some 1%Z) 1;
-  mk_site "equationOfMotion.py" "EOM.findPlasmaProfilePoint" "xtol" "root_scalar(xtol=1e-10)" (Some 1%Z) 1;
   mk_site "hydrodynamics.py" "Hydrodynamics.findJouguetVelocity" "xtol" "root_scalar(xtol=self.atol)" (Some 1%Z) 2;
   mk_site "hydrodynamics.py" "Hydrodynamics.vpvmAndvpovm" "branch" "(pHighT - pLowT) / (eHighT - eLowT)" (Some 4%Z) 1;
   mk_site "hydrodynamics.py" "Hydrodynamics.matchDeton" "xtol" "root_scalar(xtol=self.atol)" (Some 1%Z) 1;
